@@ -1,7 +1,7 @@
 (* C06 — property theorems (statements only; proofs in Proofs*.v) *)
 From Coq Require Import NArith List Bool Arith.
 Import ListNotations.
-From LTV.C06 Require Import ParamsGen Model Proofs ProofsInv ProofsRun ProofsOcc ProofsFull ProofsRetry ProofsKs ProofsKs2 ProofsKs3.
+From LTV.C06 Require Import ParamsGen Model Proofs ProofsInv ProofsRun ProofsOcc ProofsFull ProofsRetry ProofsKs ProofsKs2 ProofsKs3 ModelSend ProofsSend.
 
 Theorem params_ok_now : params_ok = true.
 Proof. exact Proofs.params_ok_now. Qed.
@@ -88,6 +88,29 @@ Theorem sender_cells_ok : forall s j, KC s -> j < L s ->
   (q < dstart s \/ dstart s + didx s <= q -> is_clr c = true -> cell_ok c = true).
 Proof. exact ProofsKs3.sender_cells_ok. Qed.
 Print Assumptions sender_cells_ok.
+
+(* send_keystream_aligned (ModelSend.v: the write side of handshake.cc as the list of appends to
+   m_writeBuffer and EncryptionInfo::encrypt calls, each with the two length expressions the code
+   uses).  For every length of our own pad and extension-handshake message, stream mode, extension
+   support of the peer and chunking of the bitfield body, the bytes the library has queued are:
+   clear bytes (key, pad, req hashes), then bytes encrypted exactly once with keystream positions
+   0,1,2,... in stream order (VC, crypto_select / crypto_provide + lengths, IA / BT handshake,
+   extension handshake, bitfield header, bitfield body), then - only after set_obfuscated - clear
+   bytes.  The generic form (send_generic) holds for any op list whose encrypt lengths equal the
+   lengths written and that starts the cipher once; send_misaligned_detected (ProofsSend.v) shows
+   a wrong length is visible.  The interleaving with the read machine is not modelled here (the
+   write order is fixed by the read states); the real stream is checked by the peer's decryption in
+   every correspondence case (w= / m= fields). *)
+Theorem send_keystream_aligned : forall pad xl plain ext chunks,
+  WInv (wrun (send_script_in pad xl plain ext chunks)) /\ WInv (wrun (send_script_out pad xl plain ext chunks)).
+Proof. exact ProofsSend.send_keystream_aligned. Qed.
+Print Assumptions send_keystream_aligned.
+
+Theorem send_generic : forall A B,
+  Forall op_ok A -> Forall is_put A -> Forall op_ok B -> Forall not_encon B ->
+  WInv (wrun (A ++ WEncOn :: B)).
+Proof. exact ProofsSend.send_generic. Qed.
+Print Assumptions send_generic.
 
 (* the two operation lemmas the induction rests on *)
 Theorem keystream_fill_aligned : forall size s k eof s1 k1 b,
